@@ -264,7 +264,11 @@ class OsProxy:
 
         def do() -> Any:
             r = _os.unlink(p, *a, **k)
-            w.tmps.pop(_os.fspath(p), None)
+            t = w.tmps.pop(_os.fspath(p), None)
+            me = w.st.me()
+            if t is not None and t[0] == me and me not in w.releasing and me in w.seen:
+                # a completed takeover: from here on the taker has to watch an unchanged mtime for a whole grace period again
+                w.seen[me] = (w.seen[me][0], w.now)
             if self._is_lock(p):
                 w.cur = None
             return r
@@ -299,7 +303,7 @@ PROFILES = ["handover", "crash", "crash", "stall", "nograce"]
 
 
 def run_real(kind: str, grace: int | None, n: int, rounds: list[int], tmp: str, tag: str, rng: random.Random | None = None,
-             profile: str = "handover", events: list[list[Any]] | None = None, max_events: int = 260, real_mtime: bool = False) -> dict[str, Any]:
+             profile: str = "handover", events: list[list[Any]] | None = None, max_events: int = 260, real_mtime: bool = False, chooser: Any = None) -> dict[str, Any]:
     """Run the real lock classes in lock-step; either replay `events` or draw them from `rng`."""
     import optuna.storages.journal._file as jf
 
@@ -365,7 +369,12 @@ def run_real(kind: str, grace: int | None, n: int, rounds: list[int], tmp: str, 
         script = list(events) if events is not None else None
         while True:
             live = [i for i in range(n) if not st.done[i] and i not in w.crashed]
-            if script is not None:
+            if chooser is not None:
+                ev = chooser({"pending": list(st.pending), "done": list(st.done), "holders": set(w.holders), "crashed": set(w.crashed), "now": w.now,
+                              "last": [steps[k] for k in range(len(steps) - 1, -1, -1) if out_events[k][0] == "s"][:1], "events": out_events, "steps": steps})
+                if ev is None or len(out_events) >= max_events:
+                    break
+            elif script is not None:
                 if not script:
                     break
                 ev = script.pop(0)
@@ -387,7 +396,7 @@ def run_real(kind: str, grace: int | None, n: int, rounds: list[int], tmp: str, 
                         ev = ["s", rng.choice(live)]
                     cur_w = ev[1]
             burst = 1
-            if ev[0] == "t" and script is None and rng is not None and rng.random() < 0.35:
+            if ev[0] == "t" and script is None and chooser is None and rng is not None and rng.random() < 0.35:
                 burst = (grace or 1) + 1
             for _ in range(burst):
                 out_events.append(ev)
@@ -431,12 +440,16 @@ def excusable(kind: str, grace: int | None, t: dict[str, Any]) -> str | None:
     """Why a takeover that removed a live creator's lock file is within what the grace-period design (and the
     recorded finding F13) allows; None = it is not."""
     if grace is None or t["watched"] <= grace:
-        return None  # the taker has not even watched one unchanged mtime for longer than the grace period
+        # the taker has not watched one unchanged mtime for longer than the grace period since it began to wait /
+        # since its last completed takeover (repo d602c3c: the timer restarts there)
+        return None
     if t["changed_hands"]:
         return "F13" if t["after_crash"] else "stalled-waiter"
     if kind == "open":
         return "slow-holder" if t["age"] > grace else "equal-mtime"
-    return "symlink-stale-journal-mtime"
+    # symlink lock: os.stat follows the link; the lock was held at each poll of the taker and the journal's mtime did not
+    # change for longer than the grace period (one slow holder, or several that had not written yet; F13 without overlap)
+    return "symlink-journal-idle-while-held"
 
 
 def oracle(real: dict[str, Any]) -> dict[str, Any] | None:
@@ -546,14 +559,28 @@ def compare_batch(chk: core.Check, reals: list[dict[str, Any]], label: str) -> N
         witness = {"part": "lock", "lock": real["kind"], "grace": real["grace"], "n": real["n"], "rounds": real.get("rounds"), "events": real["events"], "seed": real.get("seed")}
         if verdict is not None:
             chk.violation({"part": "lock", "lock": real["kind"], "kind": verdict["kind"]}, witness, "%s lock: %s" % (real["kind"], verdict["why"]))
+        elif real["takeovers"] and any(len(s["holders"]) > 1 for s in real["steps"]):
+            # "at most one worker holds the file lock" is false on this run.  The takeover that made it so is within what
+            # the staleness rule allows (watched an unchanged mtime for longer than the grace period): these are the recorded
+            # findings (known_findings.json matches on `class`); a holder that simply keeps the lock longer than the grace
+            # period loses it by design (documented meaning of grace_period) and is not reported.
+            classes = [excusable(real["kind"], real["grace"], t) for t in real["takeovers"]]
+            cls = next((c for c in ("F13", "stalled-waiter", "symlink-journal-idle-while-held") if c in classes), None)
+            if cls is not None:
+                k = next(k for k, s in enumerate(real["steps"]) if len(s["holders"]) > 1)
+                chk.violation({"part": "lock", "lock": real["kind"], "kind": "two-holders-after-takeover", "class": cls}, witness,
+                              "%s lock: live workers %s are inside the critical section after event %d; a waiter took over the lock file of a live creator (%s)" % (
+                                  real["kind"], real["steps"][k]["holders"], k, cls))
+        ndiff = sum(1 for b in chk.broken if "lock-model" in str(b.get("detail"))[:40])
         if diff is not None:
-            chk.broke("correspondence", {"lock-model": "the real %s lock class and Model/FileLock.lean differ" % real["kind"], "first_difference": diff,
-                                         "case": {k: witness[k] for k in ("lock", "grace", "n", "rounds", "seed")}, "events": real["events"][: (diff.get("event", 0) + 1)]})
-            return
+            chk.count("lock:model-and-code-differ")
+            if ndiff < 2:  # the oracle above still judges every later run; only the first differences are written out
+                chk.broke("correspondence", {"lock-model": "the real %s lock class and Model/FileLock.lean differ" % real["kind"], "first_difference": diff,
+                                             "case": {k: witness[k] for k in ("lock", "grace", "n", "rounds", "seed")}, "events": real["events"][: (diff.get("event", 0) + 1)]})
+            continue
         # the model's hypothesis and the real run must tell the same story
-        if (model.get("safe") is True) != (not real["takeovers"]):
+        if (model.get("safe") is True) != (not real["takeovers"]) and ndiff < 2:
             chk.broke("correspondence", {"lock-model": "safeSched=%s but the real run saw %d takeover(s) of a live creator's lock" % (model.get("safe"), len(real["takeovers"])), "case": witness})
-            return
 
 
 def scenarios(chk: core.Check) -> None:
@@ -582,6 +609,68 @@ def scenarios(chk: core.Check) -> None:
     compare_batch(chk, reals, "-scenario")
 
 
+class Directed:
+    """A schedule given by what the real code is doing (robust against added / removed calls), not by step counts."""
+
+    def __init__(self, prog: list[tuple[Any, ...]]) -> None:
+        self.prog = list(prog)
+        self.left: int | None = None
+
+    def __call__(self, v: dict[str, Any]) -> Any:
+        while self.prog:
+            d = self.prog[0]
+            kind, wk = d[0], d[1]
+            gone = kind != "ticks" and kind != "crash" and (v["done"][wk] or wk in v["crashed"])
+            if kind == "crash":
+                self.prog.pop(0)
+                return ["c", wk]
+            if kind == "ticks":
+                if self.left is None:
+                    self.left = wk
+                if self.left > 0:
+                    self.left -= 1
+                    return ["t"]
+                self.left = None
+                self.prog.pop(0)
+                continue
+            if gone:
+                self.prog.pop(0)
+                continue
+            if kind == "until_holder" and wk in v["holders"]:
+                self.prog.pop(0)
+                continue
+            if kind == "until_pending" and v["pending"][wk] == d[2] and (len(d) < 4 or any(
+                    e == ["s", wk] and st["call"] == d[3] and st["res"] == "ok" for e, st in zip(v["events"], v["steps"]))):
+                # ... (optionally: after this worker has completed a call named d[3])
+                self.prog.pop(0)
+                continue
+            if kind == "steps_or_holder":
+                if self.left is None:
+                    self.left = d[2]
+                if self.left <= 0 or wk in v["holders"]:
+                    self.left = None
+                    self.prog.pop(0)
+                    continue
+                self.left -= 1
+            return ["s", wk]
+        return None
+
+
+def directed(chk: core.Check) -> None:
+    """Property-directed schedules judged by the oracle (and compared with the model like every other run):
+    the situation repaired by repo d602c3c — a waiter completes a takeover, somebody else wins the re-created lock file,
+    the taker polls again before a further grace period has passed.  It must not break that live lock."""
+    reals = []
+    for kind in ("symlink", "open"):
+        for g in (1, 2):
+            prog = [("until_holder", 0), ("crash", 0), ("until_pending", 1, "sleep"), ("ticks", g + 1),
+                    ("until_pending", 1, "sleep", "unlink"), ("until_holder", 2), ("ticks", g), ("steps_or_holder", 1, 14)]
+            real = run_real(kind, g, 3, [2, 2, 2], chk.tmp, "dir_%s_%d" % (kind, g), chooser=Directed(prog), max_events=200)
+            real["profile"] = "directed:retake-after-takeover"
+            reals.append(real)
+    compare_batch(chk, reals, "-directed")
+
+
 def correspond(chk: core.Check, tier: str) -> None:
     import multiprocessing as mp
 
@@ -589,6 +678,7 @@ def correspond(chk: core.Check, tier: str) -> None:
     chk.rule = (chk.rule + " || " if chk.rule else "") + RULE_LOCK
     try:
         scenarios(chk)
+        directed(chk)
         n = 400 if tier == "quick" else 12000
         cases = gen_cases(chk.seed, n)
         jobs = [(cases[j::8], chk.tmp) for j in range(8)]
@@ -596,8 +686,6 @@ def correspond(chk: core.Check, tier: str) -> None:
             results = pool.map(_case_worker, jobs)
         for res in results:
             compare_batch(chk, res, "")
-            if any("lock-model" in str(b.get("detail")) for b in chk.broken):
-                break
     except core.DriverBroken as e:
         chk.broke("correspondence", {"driver": str(e)[:600]})
     chk.extra["lock_tie_wall_s"] = round(_time.time() - t0, 2)
@@ -606,7 +694,7 @@ def correspond(chk: core.Check, tier: str) -> None:
         "lock tie: mtimes are readings of the virtual clock (regular lock file: clock at creation; symlink lock: the journal's, because os.stat follows the link); "
         "asynchronous exceptions inside acquire() are not explored",
         "mutual exclusion is claimed under safeSched (no takeover removes the lock file of a live creator); schedules violating it (F13, stalled waiter, "
-        "journal idle longer than the grace period under the symlink lock) are replayed and must agree with the model, they are counted, not alarmed",
+        "journal unmodified for longer than the grace period while the symlink lock is seen held) are replayed and must agree with the model, they are counted, not alarmed",
     ]
 
 
